@@ -229,6 +229,26 @@ def run(ctx):
         for policy in (0, 1, 2):
             for ci in range(nchunk):
                 args.append((shard_hist, (ctx.seed, name, members, policy, hs[ci::nchunk], 2 if ci % 2 else 0)))
+    # deferred-link ladders: three or four dangerous links of different (and equal) stored lengths in every order, each skipped,
+    # extracted with the header path, or extracted to an explicit output name (whose length has nothing to do with the stored
+    # path); then the re-presented entries are drained and extracted.  Longest stored path first, whatever the output names were.
+    names = [b'l', b'link_bb', b'sub/dir/link_cccccc', b'link_dd']
+    nlad = 0
+    for perm in itertools.permutations(range(4), 3 if ctx.tier == 'quick' else 4):
+        ms = [arc.dir_member(b'sub/', level=2, perms=0o40755), arc.dir_member(b'sub/dir/', level=1, perms=0o40755)]
+        ms += [arc.symlink_member(names[j], rnd.choice([b'..', b'../up', b'/abs/t']), level=(j + nlad) % 4) for j in perm]
+        hl = []
+        for opsel in itertools.product(('', 'X', 'XN'), repeat=len(perm)):
+            if sum(1 for o in opsel if o) < 2:
+                continue
+            h = ['N', 'X', 'N', 'X']
+            for o in opsel:
+                h += ['N'] + ([o] if o else [])
+            h += ['N', 'X'] * (len(perm) + 2) + ['N']
+            hl.append(tuple(h))
+        nlad += 1
+        args.append((shard_hist, (ctx.seed, 'danger-ladder-%s' % ''.join(map(str, perm)), ms, nlad % 3, hl, 2 if nlad % 2 else 0)))
+    ctx.cov['deferred_ladder_archives'] = nlad
     nr = 1000 if ctx.tier == 'quick' else 12000
     for i in range(8):
         args.append((shard_random, (ctx.seed * 97 + i, nr, 14)))
@@ -238,7 +258,7 @@ def run(ctx):
     ctx.cov['exhaustive_subspace'] = ('all legal op sequences of length <= %d over {next, read(1), read(5), read-all, check, extract, extract-named} '
                                       'on two 3-member archives x 3 directory policies' % depth)
     ctx.cov['rule'] = ('histories obey the side conditions (<= 1 decode operation per member, <= 1 extract per entry); exhaustive to the depth '
-                       'bound on fixed archives, seeded random on generated ones (2-6 members, all methods, nested dirs, safe/dangerous links, 4 '
+                       'bound on fixed archives, deferred-link ladders (3-4 dangerous links in every order x {skip, extract, extract to an explicit name} per link), seeded random on generated ones (2-6 members, all methods, nested dirs, safe/dangerous links, 4 '
                        'stream kinds); distinct by (archive, policy, history, stream kind); non-trivial = uses at least two different operations')
 
 
